@@ -628,6 +628,7 @@ class Process(StateMachine, persistence.Savable, metaclass=ProcessStateMachineMe
         super().save_instance_state(out_state, save_context)
 
         out_state['_state'] = self._state.save(save_context)
+        out_state['_uuid'] = self._uuid
 
         # Inputs/outputs
         if self.raw_inputs is not None:
@@ -673,6 +674,9 @@ class Process(StateMachine, persistence.Savable, metaclass=ProcessStateMachineMe
 
         # Need to call this here as things downstream may rely on us having the runtime variable above
         super().load_instance_state(saved_state, load_context)
+
+        # (checkpoints written before the uuid was saved do not have it)
+        self._uuid = saved_state.get('_uuid', None)
 
         # Inputs/outputs
         try:
